@@ -230,6 +230,16 @@ class C15(Prop):
             return Outcome.skip('both_unsolved', labels)
         if v1 is None or v2 is None:
             if kind == 'lp':
+                if case['kind'] == 'det':
+                    from vf.props.c11 import highs_itself_fails
+                    bad = c1 if v1 is None else c2
+                    mb, xb, pb = detmodel.build(bad)
+                    detmodel.declare(bad, mb, xb, pb)
+                    with quiet():
+                        fb = mb.do_math()
+                    if any(t in 'IB' for t in fb.vtype) and highs_itself_fails(fb):
+                        return Outcome.inconclusive('HiGHS fails on the compiled program with presolve and solves it without (solver defect, '
+                                                    'reproduced by an independent scipy.milp call)', labels + ['highs_presolve_failure'])
                 return Outcome.fail('status_mismatch', 'one presentation solves (%r) and the other reports status %s' % (
                     v1 if v1 is not None else v2, s1 if v1 is None else s2), labels)
             return Outcome.inconclusive('cone_solver_status', labels)
